@@ -457,8 +457,18 @@ def rel_events(rng, ncalls, events, calls):
         ci = len(calls)
         calls.append(call)
         try:
+            if n >= 3 and rng.random() < 0.6:
+                # history: the same binner instance has served another native grid of the same length
+                # (equal end points, different spacing) before.  Results must not depend on that.
+                other = np.linspace(c.min(), c.max(), n)
+                if not np.array_equal(other, np.sort(c)):
+                    fb.bindown(other, np.zeros(n))
+                    call['reused'] = True
             rc = fb.bindown(c, np.full(n, float(c0)))[1]
             rf = fb.bin_model((c, fa, None, None))[1]
+            fresh = FluxBinner(tc, tw).bindown(c, fa)[1]
+            call['history_ok'] = bool(np.array_equal(np.asarray(rf), np.asarray(fresh), equal_nan=True))
+            call['history_detail'] = 'reused binner %r vs fresh binner %r' % (np.asarray(rf).tolist()[:6], np.asarray(fresh).tolist()[:6])
             rg = fb.bindown(c, ga)[1]
             rh = fb.bindown(c, a * fa + b * ga)[1]
             rp = fb.bindown(c[p], fa[p])[1]
@@ -562,6 +572,10 @@ def run_traces(ctx, nval, nrel, nhist):
         ctx.verdict(clause_of[e['kind']], b is None, cls=e['cls'] + (':' + b['cls'] if b else ''),
                     detail='TLC rejected event: got %s' % e['got'],
                     vector=dict(trace=True, call=calls[e['call']], k=e.get('k'), event=slim(e)) if b else None)
+    for c_ in calls:
+        if c_.get('kind') == 'rel' and 'history_ok' in c_:
+            ctx.verdict('binner_is_stateless', c_['history_ok'], cls='flux:derived:%s:%s' % (c_['style'], 'reused' if c_.get('reused') else 'fresh'),
+                        detail=c_.get('history_detail', ''), vector=dict(trace=True, call=c_, k=None, event=None))
     ctx.add_sample(dict(trace_event=slim(events[0])))
     ctx.note('trace events %r from %d real calls; %d+%d target bins skipped (window larger than the 32-bit budget)'
              % (counts, len(calls), sk1, sk2))
